@@ -4,7 +4,7 @@ from props.fullcommon import FullCheck
 
 class C01(FullCheck):
   ID = 'C01'
-  FOCUS = ('once:', 'deadline:')
+  FOCUS = ('once:', 'deadline:', 'reply:wrong-value', 'reply:wrong-exception', 'reply:value-for-failing-call')
   RULE = ('case = one real client (Thrift pool+serial stack or ThriftMux stack from the public builders; '
           'aperture or heap balancer; 1-5 endpoints; open timeout 0 or None; optional small watermark '
           'pool) on the virtual clock; 3-120 calls with per-call timeouts from 5 ms to 30 s issued in '
@@ -14,7 +14,8 @@ class C01(FullCheck):
           'at seeded operations; servers going down/up; members leaving/joining; same-instant timer '
           'order fifo/lifo/random. Oracle per call over the whole history incl. a quiet tail >= 4 T_max: '
           'exactly one completion, not later than the deadline rounded up to 10 ms, TimeoutError not '
-          'before the deadline, result unchanged afterwards. non-trivial = the call reached a server or '
+          'before the deadline, result unchanged afterwards, and a value/declared exception is the '
+          'server\'s reply to that very call (shared with C02). non-trivial = the call reached a server or '
           'timed out; distinct by (stack, #endpoints, balancer, open mode, outcome multiset, race classes)')
   REQUIRED_CLASSES = ('thrift', 'mux', 'issued-before-open', 'reply-before-timer', 'timer-before-reply',
                       'reply:near-deadline', 'reply:late', 'reply:never', 'server-down', 'leave', 'boundary',
